@@ -10,8 +10,8 @@ PROPERTY = 'C01'
 BOUNDS = ("Container.transfer / Plate.transfer from arbitrary valid pre-states: every amount in every well symbolic "
           "(wells hold water+NaCl+lipase on the source side, water on the destination side), quantity symbolic in "
           "[0, 1e6] of its unit; units uL/mg (quick) + umol/U/mL/g/kU/mmol (thorough); plates 2x3 (and 1x1 sources); "
-          "20 geometries: row->row, col->col, rect->rect, stepped, lists, 1->all, all->1, whole Plate on either side, "
-          "container->plate/list, plate/slice->container, slices of slices (3), same plate disjoint (3) and overlapping (3), container into "
+          "23 geometries: row->row, col->col, rect->rect, stepped, lists, 1->all, all->1, whole Plate on either side, "
+          "container->plate/list, plate/slice->container, slices of slices (3), same plate disjoint (5, two with slices of slices) and overlapping (3), two distinct plates sharing a name, container into "
           "itself; 'tight' cells assume 0 <= q < held in every addressed source well (one path per geometry), 'free' "
           "cells (2 wells) assume nothing about q so refusals and exact-depletion paths are explored too. Lite "
           "rounding model.")
@@ -42,6 +42,9 @@ GEOMS = {
     'same/row->row': ((1, S(None)), [(0, 0), (0, 1), (0, 2)], (2, S(None)), [(1, 0), (1, 1), (1, 2)], True),
     'same/well->row': ('A:1', [(0, 0)], (2, S(None)), [(1, 0), (1, 1), (1, 2)], True),
     'same/col->col': ((S(None), 1), [(0, 0), (1, 0)], (S(None), 3), [(0, 2), (1, 2)], True),
+    'same/sub->row': (('SUB', (1, S(None)), (S(0, 1), S(0, 2))), [(0, 0), (0, 1)], (2, S(1, 2)), [(1, 0), (1, 1)], True),
+    'same/row->sub': ((1, S(2, 3)), [(0, 1), (0, 2)], ('SUB', (S(None), S(None)), (S(1, 2), S(0, 2))), [(1, 0), (1, 1)], True),
+    'samename/row->row': ((1, S(None)), [(0, 0), (0, 1), (0, 2)], (2, S(None)), [(1, 0), (1, 1), (1, 2)], False, (2, 3), 'P'),
     'overlap/row->same-row': ((1, S(None)), [(0, 0), (0, 1), (0, 2)], (1, S(None)), [(0, 0), (0, 1), (0, 2)], True),
     'overlap/shifted': ((1, S(1, 2)), [(0, 0), (0, 1)], (1, S(2, 3)), [(0, 1), (0, 2)], True),
     'overlap/well->row': ('A:1', [(0, 0)], (1, S(None)), [(0, 0), (0, 1), (0, 2)], True),
@@ -78,17 +81,19 @@ def select(plate, sel):
     if isinstance(sel, str) and sel == 'PLATE':
         return plate
     if isinstance(sel, tuple) and len(sel) == 3 and sel[0] == 'SUB':
-        return plate[sel[1]][sel[2]]
+        outer = plate[sel[1]]
+        _ = (outer.size, outer.shape)      # a caller may well look at the parent slice before slicing it again
+        return outer[sel[2]]
     return plate[sel]
 
 
-def _mk_plate(h, lib, name, shape, subs, lo, hi):
+def _mk_plate(h, lib, name, shape, subs, lo, hi, tag=None):
     P = h.env.Plate(name, '1000 L', rows=shape[0], columns=shape[1])
     for r in range(shape[0]):
         for c in range(shape[1]):
             w = P.wells[r, c]
             for sname in subs:
-                w.contents[lib[sname]] = h.real(f"{name}{r + 1}{c + 1}.{sname}", lo, hi)
+                w.contents[lib[sname]] = h.real(f"{tag or name}{r + 1}{c + 1}.{sname}", lo, hi)
             set_volume(h, lib, w)
     return P
 
@@ -143,7 +148,8 @@ def h_conserve(h):
     elif same:
         dst_arg = select(objs['P'], dst_sel)
     else:
-        objs['Q'] = _mk_plate(h, lib, 'Q', shape, ['water'], lo, hi)
+        # (a geometry may ask for a destination plate that shares the source plate's *name*: two distinct plates)
+        objs['Q'] = _mk_plate(h, lib, geom[6] if len(geom) > 6 else 'Q', shape, ['water'], lo, hi, tag='Q')
         dst_arg = select(objs['Q'], dst_sel)
 
     n_dst = len(dst_cells) if dst_cells else 1
